@@ -126,7 +126,7 @@ def make_replay(ob, rep, c, qualname, schema):
         res = c["replay_hook"](ob.model, c)
         res["model_excerpt"] = str(ob.model)[:1500]
         return replay.jsonable(res)
-    if c.get("make_env") is not None and c.get("replay_prepare") is None and c.get("call_stubs"):
+    if c.get("make_env") is not None and c.get("replay_prepare") is None and (c.get("call_stubs") or c.get("stubs")):
         return dict(verdict="not-attempted", detail="the pre-state of this contract is built by the contract itself (objects of concrete shape / ghost collaborators): no generic replay; solver model: %s" % str(ob.model)[:600])
     if ob.model is None or not hasattr(ob, "replay_ctx") or ob.replay_ctx is None:
         return dict(verdict="no-model", detail="no model available from the back end")
@@ -215,7 +215,7 @@ def fuzz_search(ob, c, qualname, schema, n=150):
     import random
     from pyvc import replay, verify
 
-    if not hasattr(ob, "replay_ctx") or ob.replay_ctx is None or not hasattr(ob, "entry") or c.get("replay_hook") is not None or (c.get("make_env") is not None and c.get("replay_prepare") is None and c.get("call_stubs")):
+    if not hasattr(ob, "replay_ctx") or ob.replay_ctx is None or not hasattr(ob, "entry") or c.get("replay_hook") is not None or (c.get("make_env") is not None and c.get("replay_prepare") is None and (c.get("call_stubs") or c.get("stubs"))):
         return None
     fi, env, mro_fn = ob.replay_ctx
     rng = random.Random(int(os.environ.get("VERIF_SEED", "0") or 0) + 17)
